@@ -43,9 +43,10 @@ var checkRegistry = []*checkSpec{
 			strh(hs(modulePath+"/lambda/appctx", "VerifC20RuntimeReleaseFixed", 0, "UpdateAppCtxWithRuntimeRelease: a stored value ending in the feature list is unchanged by any later request", "done")),
 			strh(hs(modulePath+"/lambda/rapi/model", "VerifC20ErrorCauseEmpty", 0, "ValidatedErrorCauseJSON: all-empty and invalid documents are dropped, recognised fields are passed on", "done")),
 			strh(hs(modulePath+"/lambda/rapi/model", "VerifC20Crop", 0, "cropString: prefix + truncation mark, length bound, symbolic string and length", "cropped")),
+			strh(hs(modulePath+"/lambda/rapi/model", "VerifC20ErrorCauseEscape", 0, "ValidatedErrorCauseJSON on an escape-heavy document: the message is k plain letters followed by n characters that encoding/json escapes with six bytes each, k and n SYMBOLIC (0..400000), sent raw by the runtime: the accepted cause is at most 64 KiB (document smaller AND larger than the limit)", "accepted", "small-input")),
 		},
 		assume:  []string{"header values are printable ASCII (net/http rejects the rest)", "regexp.MatchString contract: constant pattern translated to an SMT-LIB RegLan", "user agent and features are built from declared whitespace-free tokens of symbolic length (strings.Fields / ReplaceAll act structurally on them)"},
-		outside: []string{"the 64 KiB bound of the re-marshalled error cause under JSON escaping (z3 and cvc5 both time out on the escape-length reasoning; not claimed)", "HTTP transport"},
+		outside: []string{"error causes other than {message of plain letters followed by html-escaped characters, fixed working directory}: escaping of arbitrary byte strings is an uninterpreted contract with length bounds only; exceptions/paths arrays with symbolic elements", "HTTP transport"},
 	},
 }
 
